@@ -9,7 +9,7 @@ cd "$D"
 if [ "$P" = "-R" ]; then git revert --no-edit -n "$ID" >/dev/null 2>&1 || { echo "revert failed"; rm -rf "$D"; exit 2; }; ID="$3"; TIER="${4:-quick}";
 else git apply "$P" 2>/dev/null || patch -p1 -s < "$P" || { echo "patch failed"; rm -rf "$D"; exit 2; }; fi
 cd /verif
-out=$(VERIF_REPO="$D" VERIF_EVIDENCE_DIR="$D/.verif-evidence" bin/check "$ID" --tier "$TIER" 2>&1 | tail -6)
+out=$(VERIF_REPO="$D" VERIF_EVIDENCE_DIR="$D/.verif-evidence" bin/check "$ID" --tier "$TIER" 2>&1 | grep -v "^inconclusive:" | tail -12)
 echo "$out"
 if echo "$out" | grep -q "^VIOLATION"; then echo "RESULT: CAUGHT"; else echo "RESULT: MISSED"; fi
 rm -rf "$D"
